@@ -301,6 +301,18 @@ def rule_errfirst(ctx):
                     isinstance(b, ast.Return) and isinstance(
                         b.value, ast.Name) for b in s.body):
                 ok = True
+    # ... or `next((v for v in <in order> if isinstance(v, XlError)), None)`
+    for n in own_nodes(ge):
+        if isinstance(n, ast.Call) and isinstance(n.func, ast.Name) and \
+                n.func.id == 'next' and n.args and isinstance(
+                n.args[0], ast.GeneratorExp):
+            g = n.args[0]
+            it = norm_src(g.generators[0].iter)
+            if 'reversed' in it or 'sorted' in it or '[::-1]' in it:
+                continue
+            if isinstance(g.elt, ast.Name) and any(
+                    'XlError' in norm_src(c) for c in g.generators[0].ifs):
+                ok = True
     if ok:
         rr.ok('get_error scans the arguments in order and returns the first '
               'XlError', ge.module.rel)
